@@ -144,13 +144,12 @@ func (ip *IPv4) SerializeTo(b gopacket.SerializeBuffer, opts gopacket.SerializeO
 			bytes[curLocation] = 1
 			curLocation++
 		default:
-			bytes[curLocation] = opt.OptionType
-			bytes[curLocation+1] = opt.OptionLength
-
 			// the type and length bytes occupy two octets, so a non-trivial
 			// option must declare a length of at least 2. without this guard
 			// opt.OptionLength-2 underflows below and the copy slices a
 			// reversed range, panicking with "slice bounds out of range".
+			// (checked before the two octets are stored: a shorter option has
+			// not reserved room for them)
 			if opt.OptionLength < 2 {
 				return fmt.Errorf("invalid IP option type %v length %d, must be greater than 2", opt.OptionType, opt.OptionLength)
 			}
@@ -159,6 +158,8 @@ func (ip *IPv4) SerializeTo(b gopacket.SerializeBuffer, opts gopacket.SerializeO
 			if len(opt.OptionData) > int(opt.OptionLength-2) {
 				return errors.New("option length is smaller than length of option data")
 			}
+			bytes[curLocation] = opt.OptionType
+			bytes[curLocation+1] = opt.OptionLength
 			copy(bytes[curLocation+2:curLocation+int(opt.OptionLength)], opt.OptionData)
 			curLocation += int(opt.OptionLength)
 		}
